@@ -35,7 +35,7 @@ func TestC14(t *testing.T) {
 	var cases []mon.CaseSpec
 	ends := []string{"close-inflight", "close-timer", "close-connected", "sockclose-inflight", "sockclose-timer", "sockclose-connected"}
 	rs := []int{5, 20, 40}
-	n := r.Pick(240, 3000)
+	n := r.Pick(240, 12000)
 	for i := 0; i < n; i++ {
 		R := rs[i%3]
 		maxs := []int{0, R, 2 * R, 8 * R}
@@ -50,7 +50,7 @@ func TestC14(t *testing.T) {
 		}
 		cases = append(cases, mon.CaseSpec{Name: "mix/" + sp.End, Spec: sp})
 	}
-	for i := 0; i < r.Pick(8, 60); i++ {
+	for i := 0; i < r.Pick(8, 200); i++ {
 		cases = append(cases, mon.CaseSpec{Name: "cap", Spec: spec{Kind: "cap", Proto: "pair", RMs: 20, MaxMs: 40, Async: true}})
 		cases = append(cases, mon.CaseSpec{Name: "nogrowth", Spec: spec{Kind: "nogrowth", Proto: "pair", RMs: 20, MaxMs: 0, Async: true}})
 		cases = append(cases, mon.CaseSpec{Name: "reset", Spec: spec{Kind: "reset", Proto: "pair", RMs: 5, MaxMs: 2000, Async: true}})
